@@ -58,7 +58,7 @@ struct UnifyScenario : Scenario {
       p.seed = 0xC0100 + i;
       return p;
    }
-   size_t search_count(int tier) const override { return tier == 0 ? 4000 : 400000; }
+   size_t search_count(int tier) const override { return tier == 0 ? 12000 : 400000; }
    Plan generate(uint64_t run_seed, int tier) const override
    {
       Rng r(run_seed);
